@@ -124,8 +124,8 @@ theorem getitem_vector (values : List (String × Rat)) (v : PVec) (hc : Covers v
 /-- `Solution[M]`: shape `rows × cols`, entry `(i, j)` = `values[M[i, j].name]` -/
 theorem getitem_matrix (values : List (String × Rat)) (m : PMat) (hw : m.WF) (hc : Covers values m.elems) :
     ∃ A, getMatrix values m = .ok A ∧ A.length = m.nrows ∧
-      ∀ i (hi : i < m.nrows) (hA : i < A.length), A[i].length = m.ncols ∧
-        ∀ j (hj : j < m.ncols) (hAj : j < A[i].length),
+      ∀ i (_ : i < m.nrows) (hA : i < A.length), A[i].length = m.ncols ∧
+        ∀ j (_ : j < m.ncols) (hAj : j < A[i].length),
           ∃ e, gridGet m.grid i j = some e ∧ dictGet values e.name = some A[i][j] :=
   getMatrix_spec values m hw hc
 
